@@ -136,9 +136,26 @@ def run(ctx):
     c03.run(ctx)
     for o in ctx.obligations[before:]:
         o.rule = 'R06i'
+    # ... and "hard selection" is what the user asked for: the hard / gumbel options given to a
+    # choice block reach its combiner unchanged (and those set later through
+    # update_softmax_options reach it slot by slot) -- the forwarding rules of C10
+    from .c10 import ctor_option_passthrough, r10d
+    ctor_option_passthrough(ctx, 'R06j')
+    before = len(ctx.obligations)
+    r10d(ctx)
+    for o in ctx.obligations[before:]:
+        o.rule = 'R06j'
     from .c04 import accumulation_rule, leaf_lists_rule, lookup_key_rule, uniquify_rule
     uniquify_rule(ctx, 'R06g')
     lookup_key_rule(ctx, 'R06h', 'SuperNet')
+    # the lookup answers with the function of the pattern the layer satisfies (C15's rules on
+    # the built-in constraints, shared)
+    from . import c15
+    before = len(ctx.obligations)
+    c15.r15d(ctx)
+    c15.r15f(ctx)
+    for o in ctx.obligations[before:]:
+        o.rule = 'R06k'
     leaf_lists_rule(ctx, 'R06g', 'SuperNet')
     accumulation_rule(ctx, 'R06f', 'SuperNet._get_single_cost', sgc)
     accumulation_rule(ctx, 'R06f', 'SuperNetCombiner.get_cost', gc, keep=KEEP)
